@@ -89,6 +89,9 @@ type concRun struct {
 	s      *csched
 	trace  []interface{}
 	cached map[string]bool
+	// alias: with the name table required, the listener of a looked-up name is the one the control plane calls
+	// alias[name] (<ip>_<port>); several names may share one listener
+	alias map[string]string
 	// stuck: a party is blocked where nothing can release it (a lock that nobody gives back): the schedule ends there
 	stuck string
 }
@@ -96,6 +99,12 @@ type concRun struct {
 // stuckSchedules counts the schedules of this process that ended stuck; after a few of them the enumeration stops
 // (every one costs its patience in real time and they all say the same).
 var stuckSchedules int32
+
+// concAlias / concAliasTable: set by a scenario that runs with the name table required (see concScenario.alias).
+var (
+	concAlias      map[string]string
+	concAliasTable []kv
+)
 
 func newConcRun(names []string, rt string, fetch ...time.Duration) (*concRun, error) {
 	if rt == "" {
@@ -106,9 +115,15 @@ func newConcRun(names []string, rt string, fetch ...time.Duration) (*concRun, er
 	if len(fetch) > 0 && fetch[0] > 0 {
 		ft = fetch[0]
 	}
-	w, err := newWorld(worldOpts{ndsNotRequired: true, fetchTimeout: ft})
+	w, err := newWorld(worldOpts{ndsNotRequired: concAlias == nil, fetchTimeout: ft})
 	if err != nil {
 		return nil, err
+	}
+	if concAlias != nil {
+		// the name table that binds the looked-up names to their listeners
+		if !w.push(mkResp(xdsresource.NameTableTypeURL, "t1", "tn1", []*anypb.Any{anyNameTable(concAliasTable)})) {
+			return nil, errors.New("conc: name table not accepted")
+		}
 	}
 	s := &csched{threads: map[int]*cthread{}}
 	curSchedMu.Lock()
@@ -119,7 +134,7 @@ func newConcRun(names []string, rt string, fetch ...time.Duration) (*concRun, er
 		w.m.VerifWatch(rtOf(rt), n, false)
 	}
 	w.settle()
-	return &concRun{rt: rt, w: w, s: s, cached: map[string]bool{}}, nil
+	return &concRun{rt: rt, w: w, s: s, cached: map[string]bool{}, alias: concAlias}, nil
 }
 
 // close ends the run: every lookup still parked or waiting is cancelled and released, so that no goroutine
@@ -315,8 +330,16 @@ func (r *concRun) deliver(items [][2]string, version int) {
 	for _, n := range r.w.m.VerifInterest()[rtOf(r.rt)] {
 		interest[n] = true
 	}
+	sentWire := map[string]bool{}
 	for _, it := range items {
-		anys = append(anys, anyStamped(r.rt, it[0], it[1]))
+		wire := it[0]
+		if a, ok := r.alias[it[0]]; ok {
+			wire = a
+		}
+		if !sentWire[wire] {
+			sentWire[wire] = true
+			anys = append(anys, anyStamped(r.rt, wire, it[1]))
+		}
 		if interest[it[0]] {
 			ij = append(ij, []interface{}{it[0], it[1]})
 			r.cached[it[0]] = true
@@ -458,6 +481,9 @@ type concScenario struct {
 	cancels []int         // threads whose deadline may fire
 	evicts  []string
 	fetch   time.Duration // fetch timeout of the manager (0: one hour, deadlines come from caller cancellation only)
+	// alias/table: run with the name table required; alias maps each looked-up listener name to the control plane's name
+	alias map[string]string
+	table []kv
 }
 
 func runSchedule(c *ctx, sc concScenario, actions []string, emit bool) (avail []string, lost bool) {
@@ -469,7 +495,9 @@ func runSchedule(c *ctx, sc concScenario, actions []string, emit bool) (avail []
 			names = append(names, n)
 		}
 	}
+	concAlias, concAliasTable = sc.alias, sc.table
 	r, err := newConcRun(names, sc.rt, sc.fetch)
+	concAlias, concAliasTable = nil, nil
 	if err != nil {
 		fmt.Println("conc:", err)
 		return nil, false
@@ -782,9 +810,12 @@ func init() {
 		scen = append(scen, concScenario{rt: "lds", names: []string{"lx"}, updates: [][][2]string{{{"other", "o#1"}}, {{"lx", "lx#2"}}}, cancels: []int{0}})
 		// two lookups of different names; the first response answers only one of them, the second both
 		scen = append(scen, concScenario{names: []string{"c1", "c2"}, updates: [][][2]string{{{"c1", "c1#1"}}, {{"c1", "c1#2"}, {"c2", "c2#2"}}}, cancels: []int{1}})
-		limits := []int{40, 90, 60, 40, 40, 60}
+		// two spellings of one service and port wait for one listener (name table required): the one response supplies both
+		scen = append(scen, concScenario{rt: "lds", names: []string{"echo", "echo:80"}, updates: [][][2]string{{{"echo", "L#1"}, {"echo:80", "L#1"}}}, cancels: []int{0},
+			alias: map[string]string{"echo": "10.0.0.1_80", "echo:80": "10.0.0.1_80"}, table: []kv{{"echo.default.svc.cluster.local", []string{"10.0.0.1"}}}})
+		limits := []int{40, 90, 60, 40, 40, 60, 40}
 		if c.thorough() {
-			limits = []int{100000, 100000, 100000, 100000, 100000, 100000}
+			limits = []int{100000, 100000, 100000, 100000, 100000, 100000, 100000}
 			scen = append(scen,
 				concScenario{names: []string{"c1", "c1", "c1"}, updates: [][][2]string{{{"c1", "c1#1"}}}, cancels: []int{0, 1}},
 				concScenario{names: []string{"c1", "c1"}, updates: [][][2]string{{{"c1", "c1#1"}}, {{"c1", "c1#2"}}}, cancels: []int{0}, evicts: []string{"c1"}})
@@ -863,7 +894,13 @@ func init() {
 		flowCaseHold(c, "burst", 1040, 2*time.Second)
 		flowCaseHold(c, "burst", 100, 500*time.Millisecond)
 	}
-	props["C06"] = runAll
+	props["C06"] = func(c *ctx) {
+		// an update that runs a (slow) registered handler while lookups of the name it delivers arrive and wait: they return it
+		for _, rt := range []string{"cds", "eds", "rds", "lds"} {
+			handlerOrder(c, rt, "h-"+rt)
+		}
+		runAll(c)
+	}
 	props["C07"] = func(c *ctx) {
 		t0 := time.Now()
 		for _, rt := range []string{"cds", "eds", "rds", "lds"} {
